@@ -225,10 +225,7 @@ def run_cases(ctx, engine, n=0, seed=1, cases_file=None, origin="generated", tag
         stats = json.loads(p.stdout.strip().splitlines()[-1])
     except Exception:
         pass
-    with open(req) as fin, open(out, "w") as fout:
-        pm = subprocess.run([ctx.mbin], stdin=fin, stdout=fout, stderr=subprocess.PIPE, text=True, timeout=7200)
-    if pm.returncode != 0:
-        ctx.build_failures.append(("lean driver crashed on engine %s" % engine, pm.stderr[-4000:]))
+    run_model(ctx, engine, req, out)
     reqs = open(req).read().split("\n")
     gos = open(obs).read().split("\n")
     leans = open(out).read().split("\n")
@@ -253,6 +250,73 @@ def _prop_fields(obs):
     obs = re.sub(r" (marks|calls)=\[[^\]]*\]", "", obs)
     obs = re.sub(r" ticks=\d+", "", obs)
     return obs
+
+
+def run_model(ctx, engine, req_path, out_path, per_line_timeout=20.0):
+    """Feeds the request lines to the Lean driver with a per-line watchdog: a request on which the model does
+    not answer in time (fuel bounds the depth of the model's recursion, not its total work) is answered
+    MODEL-TIMEOUT, the driver is restarted (with the `init` line, if any) and the run continues."""
+    import threading, queue
+    lines = [l for l in open(req_path).read().split("\n")]
+    if lines and lines[-1] == "":
+        lines.pop()
+    init = lines[0] if lines and lines[0].startswith("init\t") else None
+    answers = [None] * len(lines)
+
+    def start():
+        p = subprocess.Popen([ctx.mbin], stdin=subprocess.PIPE, stdout=subprocess.PIPE, stderr=subprocess.DEVNULL,
+                             text=True, bufsize=1)
+        q = queue.Queue()
+
+        def reader():
+            for l in p.stdout:
+                q.put(l.rstrip("\n"))
+            q.put(None)
+        threading.Thread(target=reader, daemon=True).start()
+        return p, q
+
+    i = 0
+    crashed = 0
+    while i < len(lines):
+        p, q = start()
+        if init is not None and i > 0:
+            p.stdin.write(init + "\n")
+            p.stdin.flush()
+            try:
+                q.get(timeout=120)
+            except queue.Empty:
+                pass
+        window = 256
+        sent = i
+        ok = True
+        while i < len(lines) and ok:
+            try:
+                while sent < len(lines) and sent - i < window:
+                    p.stdin.write(lines[sent] + "\n")
+                    sent += 1
+                p.stdin.flush()
+            except (BrokenPipeError, OSError):
+                pass
+            try:
+                a = q.get(timeout=per_line_timeout if i > 0 or init is None else 180)
+            except queue.Empty:
+                a = "MODEL-TIMEOUT"
+                ok = False
+            if a is None:   # driver died
+                a = "MODEL-CRASH"
+                ok = False
+                crashed += 1
+            answers[i] = a
+            i += 1
+        try:
+            p.kill()
+        except Exception:
+            pass
+        if crashed > 20:
+            ctx.build_failures.append(("lean driver keeps crashing on engine %s" % engine, "line %d" % i))
+            break
+    with open(out_path, "w") as f:
+        f.write("\n".join(a if a is not None else "<missing>" for a in answers) + "\n")
 
 
 def go_core(obs):
